@@ -70,6 +70,11 @@ class NT2(NamedTuple):
     q: int = 3
     r: Optional[H2] = None
 
+class NTL(NamedTuple):
+    tags: List[int]
+    attrs: Dict[str, int]
+    n: int
+
 class NT3(NamedTuple):
     q: int
     t: Tuple[H1, int] = (H1(0), 0)
@@ -97,7 +102,7 @@ LEAVES = [
     "ipaddress.IPv4Interface", "ipaddress.IPv6Interface",
     "pathlib.PurePath", "pathlib.Path", "pathlib.PurePosixPath", "pathlib.PosixPath", "pathlib.PureWindowsPath", "os.PathLike",
     "bytes", "bytearray", "re.Pattern", "typing.Pattern",
-    "NT1", "NT2", "NT3", "TD1", "TD2", "NTy", "TV", "TVA", "Annotated[H1, 'meta']", "Final[H1]",
+    "NT1", "NT2", "NT3", "NTL", "TD1", "TD2", "NTy", "TV", "TVA", "Annotated[H1, 'meta']", "Final[H1]",
 ]
 HOLES = ["Any", "int", "str", "H1", "D1", "Optional[H1]", "Optional[int]", "datetime.date"]
 SEQ = ["List", "list", "Sequence", "MutableSequence", "Deque", "collections.deque", "Set", "set", "FrozenSet", "frozenset",
@@ -158,6 +163,8 @@ DIALECTS = {
     "nocopy_list": dict(cfg="no_copy_collections = (list,)", native=(), no_copy=(list,)),
     "nocopy_dict": dict(cfg="no_copy_collections = (dict,)", native=(), no_copy=(dict,)),
     "nocopy_both": dict(cfg="no_copy_collections = (list, dict)", native=(), no_copy=(list, dict)),
+    # named tuples written as mappings: the members are still converted / copied one by one
+    "nt_as_dict": dict(cfg="namedtuple_as_dict = True", native=(), no_copy=(), nt_as_dict=True),
 }
 
 
@@ -216,7 +223,7 @@ def _genf(dialect):
     if callable(dialect):
         return dialect
     d = DIALECTS[dialect]
-    return lambda: ref.RefGen(native=d["native"], no_copy=d["no_copy"])
+    return lambda: ref.RefGen(native=d["native"], no_copy=d["no_copy"], namedtuple_as_dict=d.get("nt_as_dict", False))
 
 
 def make_dec_view(cls, dialect, hooks=None, staged=False):
@@ -555,7 +562,7 @@ def codec_task(payload):
                 obs.append(dict(id=oid, status="error", detail="no harvested unit for the codec object"))
                 continue
             r, fn, m = rec_fn
-            gen = ref.RefGen(native=d["native"], no_copy=d["no_copy"])
+            gen = ref.RefGen(native=d["native"], no_copy=d["no_copy"], namedtuple_as_dict=d.get("nt_as_dict", False))
             gen.static_dataclasses = True
             try:
                 if direction == "dec":
